@@ -543,12 +543,78 @@ def weekly_profile(rep, tier, sd):
     rep.notes["weekly_profile_cases"] = n
 
 
+def window_schedule(rep, tier, sd):
+    """window signals under the strategies that look ahead for them (flex_window) or merely obey them (schedule): the window flag
+    reported per step (Scenario.gcWindowSchedule) is the value of the latest signal that has taken effect by the delivery rule of the
+    events model - first step at or after its start time, never earlier - also for start times off the step grid that were announced
+    long before (round-3 seed C07-s8).  Implementation-level, floats."""
+    import contextlib
+    import io
+    import random
+    C.setup_repo_path()
+    from spice_ev.scenario import Scenario
+    rng = random.Random("c07/window/%d" % sd)
+    n = 0
+    for k in range(8 if tier == "quick" else 80):
+        interval = rng.choice([15, 15, 30, 10])
+        nint = rng.choice([12, 16])
+        start = datetime.datetime(2023, 3, rng.randint(1, 20), rng.choice([0, 6, 22]), 0, tzinfo=datetime.timezone(datetime.timedelta(hours=1)))
+        steps_ = sorted(rng.sample(range(1, nint), rng.choice([2, 3, 4])))
+        sigs, want, cur = [], [], rng.random() < 0.5
+        changes = {0: cur}
+        sigs.append((0, cur))
+        for st_ in steps_:
+            cur = not cur
+            off = st_ * interval - rng.choice([0, 0, 1, 7, interval - 1])       # lands in step st_ by the ceiling rule
+            sigs.append((off, cur))
+            changes[st_] = cur
+        val = None
+        for i in range(nint):
+            val = changes.get(i, val)
+            want.append(val)
+        early = rng.random() < 0.7
+        js = {"scenario": {"start_time": scen.iso(start), "interval": interval, "n_intervals": nint,
+                           "core_standing_time": {"times": [{"start": [22, 0], "end": [5, 0]}], "no_drive_days": [6]}},
+              "components": {"vehicle_types": {"t": {"name": "t", "capacity": 50, "charging_curve": [[0, 11], [1, 11]]}},
+                             "vehicles": {"v1": {"vehicle_type": "t", "soc": 0.4, "desired_soc": 0.8, "connected_charging_station": "cs1",
+                                                 "estimated_time_of_departure": scen.iso(start + datetime.timedelta(minutes=interval * (nint - 1)))}},
+                             "grid_connectors": {"GC1": {"max_power": 50, "cost": {"type": "fixed", "value": 0.3}}},
+                             "charging_stations": {"cs1": {"max_power": 11, "parent": "GC1"}}, "batteries": {}, "photovoltaics": {}},
+              "events": {"fixed_load": {}, "local_generation": {}, "vehicle_events": [],
+                         "grid_operator_signals": [{"signal_time": scen.iso(start if early else start + datetime.timedelta(minutes=off)),
+                                                    "start_time": scen.iso(start + datetime.timedelta(minutes=off)), "grid_connector_id": "GC1",
+                                                    "window": w_, "target": 0} for off, w_ in sigs]}}
+        strategy, opts = rng.choice([("flex_window", {"LOAD_STRAT": "balanced"}), ("flex_window", {"LOAD_STRAT": "greedy"}),
+                                     ("flex_window", {"LOAD_STRAT": "needy"}), ("schedule", {"LOAD_STRAT": "collective"})])
+        with warnings.catch_warnings(), contextlib.redirect_stdout(io.StringIO()):
+            warnings.simplefilter("ignore")
+            s_ = Scenario(js)
+            s_.run(strategy, dict(opts, skip_flex_report=True, ALLOW_NEGATIVE_SOC=True))
+        got = list(s_.gcWindowSchedule["GC1"])[:s_.step_i]
+        n += 1
+        if [None if x is None else bool(x) for x in got] != want[:len(got)]:
+            bad = [i for i, (a, b_) in enumerate(zip(got, want)) if (None if a is None else bool(a)) != b_]
+            rep.add_violation("C07/window-schedule", "%s %s: window flag per step %s, the signals (minutes after start, value) %s take effect at steps %s "
+                              "(interval %d min, announced %s): differs at steps %s" % (strategy, opts, got, sigs, sorted(changes), interval,
+                                                                                       "at scenario start" if early else "at their start time", bad[:6]),
+                              {"unit": "windowsched", "case": js})
+    rep.cov["evaluations"] += n
+    rep.notes["window_schedule_cases"] = n
+
+
 def run(tier, pid="C07"):
-    return corr.standard_run(pid, tier, [UNIT], 500, 6000, TRUSTED, RULE, extra=weekly_profile if pid == "C07" else None)
+    def extra(rep, tier_, sd):
+        weekly_profile(rep, tier_, sd)
+        window_schedule(rep, tier_, sd)
+    return corr.standard_run(pid, tier, [UNIT], 500, 6000, TRUSTED, RULE, extra=extra if pid == "C07" else None)
 
 
 def replay(payload):
     case = payload["input"]["case"]
+    if payload["input"].get("unit") == "windowsched":
+        rep = C.Report("C07", "quick")
+        window_schedule(rep, "quick", C.seed())
+        return 1 if rep.violations else 0
     if payload["input"].get("unit") == "weekly":
         rep = C.Report("C07", "quick")
         weekly_profile(rep, "quick", C.seed())
